@@ -133,6 +133,8 @@ def build(P):
             "TYPE R\nDECLARE v : INTEGER\nENDTYPE\nDECLARE a, b : ARRAY[1:2] OF R\na[1].v <- 5\nb <- a\na[1].v <- 6\nOUTPUT b[1].v, a[1].v, b[2].v",
             "DECLARE a, b : ARRAY[1:3] OF INTEGER\nTYPE P = ^INTEGER\nDECLARE p : P\na[2] <- 5\np <- ^a[2]\nb[2] <- 9\na <- b\nOUTPUT p^\np^ <- 11\nOUTPUT a[2], b[2]",
             "DECLARE a, b : ARRAY[1:3] OF INTEGER\nPROCEDURE Q(BYREF e : INTEGER)\nb[1] <- 4\na <- b\ne <- e + 1\nOUTPUT e\nENDPROCEDURE\nCALL Q(a[1])\nOUTPUT a[1], b[1]",
+            "DECLARE a : ARRAY[1:3] OF STRING\na[1] <- \"a string long enough to live on the heap, not inline\"\na[2] <- \"another string long enough to live on the heap\"\na[3] <- \"x\"\na <- a\nOUTPUT a[1]\nOUTPUT a[2]\nOUTPUT a[3]",
+            "TYPE R\nDECLARE s : STRING\nDECLARE a : ARRAY[1:2] OF STRING\nENDTYPE\nDECLARE r : R\nr.s <- \"a string long enough to live on the heap, not inline\"\nr.a[1] <- \"another string long enough to live on the heap\"\nr <- r\nOUTPUT r.s, r.a[1]\nr.a <- r.a\nOUTPUT r.a[1]\nDECLARE t : ARRAY[1:2] OF R\nt[1] <- r\nt[1] <- t[1]\nOUTPUT t[1].s, t[1].a[1]\nt <- t\nOUTPUT t[1].s, t[1].a[1]\nPROCEDURE P(BYREF x : R, BYREF y : R)\nx <- y\nOUTPUT x.s, x.a[1]\nENDPROCEDURE\nCALL P(r, r)\nCALL P(t[1], t[1])",
             "DECLARE a : ARRAY[1:3] OF INTEGER\nDECLARE a : ARRAY[1:3] OF INTEGER", "DECLARE a : ARRAY[1:3] OF DATE\nOUTPUT a[1]", "DECLARE a : ARRAY[- 1:1] OF CHAR\nOUTPUT ASC(a[0])",
             "DECLARE a : ARRAY[1:3] OF BOOLEAN\nOUTPUT a[1], a[3]", "DECLARE a : ARRAY[1:3] OF REAL\nOUTPUT a[2]", "DECLARE a : ARRAY[1:3] OF STRING\nOUTPUT \"[\", a[2], \"]\"",
             "i <- 2\nDECLARE a : ARRAY[i:i*2] OF INTEGER\na[i + 1] <- 3\nOUTPUT a[3], a[4]\nOUTPUT a[5]",
